@@ -7,29 +7,36 @@ from typing import Any
 
 from harness import c02_util as U
 from harness.common import VERIF, Ck, coq_list, coq_str, parse_coq_N_list, parse_coq_nested
-from translate import c02_tables
+from translate import c02_hstring, c02_tables
 
 MANIFEST = dict(
     technique='Rocq proof generic over the escape tables (induction over the string; tables AND the shape of escape_text regenerated '
-              'from tokenizer.py, side conditions kernel-checked) + exhaustive code-point / small-scope correspondence + in-kernel '
+              'from tokenizer.py, side conditions kernel-checked; the loop of _handle_string read from the source as a decision table by '
+              'abstract execution, proved equal to the hand model when its rows are the model\'s) + exhaustive code-point / small-scope correspondence + in-kernel '
               'small-scope enumeration of the model of the code + oracle search',
     text='Theorems in Props/C02.v, for every string (list of code points), both multiline modes, every option vector with '
          'allow_escapes, any starting line and any text following the closing quote: tokenizing DQ+escape(s)+DQ yields exactly '
          'STRING s then EOF for ever (flat input and the chunked reader state of the real class, any chunking); the escaped '
          'text decomposes into raw characters and backslash+symbol units whose raw units are never a double quote or CR, and '
          'in single-line mode contains no LF/CR at all. escape_text itself is translated into a pipeline of whole-string steps '
-         '(regex substitution with the table callback, str.replace, each conditional on multiline); if the steps of a mode are '
+         '(regex substitution with the table callback - all matches or the first n -, str.replace, each conditional on multiline); if the steps of a mode are '
          'exactly one substitution (obligation escape_text_is_one_table_substitution_*) the pipeline IS the per-character model '
          '(c02_escape_text_is_charwise) and the inverse law holds for the function as written (c02_escape_text_tokenize_inverse); a '
-         'post-processing pipeline is refuted by a computed witness. The theorems are generic over the tables; the conditions '
+         'post-processing pipeline is refuted by a computed witness. Tokenizer._handle_string is executed on abstract values for every '
+         'combination its loop body can distinguish (class of the character x last_was_cr x allow_escapes x class of the character after '
+         'a backslash: 32 rows); a table of such rows has a meaning as a reader program (hs_interp), and if the rows are the model\'s '
+         '(obligation handle_string_rows_are_the_model) that program IS the hand model handle_string on every input, flat or chunked '
+         '(c02_handle_string_table_is_model*), so the inverse law holds for both functions as written (c02_inverse_as_written). '
+         'The theorems are generic over the tables; the conditions '
          '(every escape decodes back, no symbol is a line feed, DQ/CR/backslash always escaped, LF escaped in single-line mode, '
          'DQ is not an operator) are discharged by vm_compute for the tables regenerated from the source on every run. '
          'The model of the code (pipeline + tokenizer model) is enumerated inside Coq on all strings over the 14-character escape '
          'alphabet up to length 3 (any counterexample is replayed on the implementation); escape_text is compared with the model on '
          'every code point 0..0x10FFFF in both modes and on all strings over that alphabet up to length 4; the string-reading '
          'loop of the model is compared with the real Tokenizer on every text DQ+w, w up to length 4, with and without escapes.',
-    note='Trusted: Coq kernel + vm_compute (incl. primitive Uint63 for checksums), translate/c02_tables.py, the hand model '
-         'Text/Tokenizer.v of _handle_string/_get_token (tied by exhaustive small-scope differential runs), CPython re/str '
+    note='Trusted: Coq kernel + vm_compute (incl. primitive Uint63 for checksums), translate/c02_tables.py, translate/c02_hstring.py (the '
+         'abstract executor of the _handle_string loop body: fail-closed on anything outside its statement language), the hand model '
+         'Text/Tokenizer.v of _get_token (tied by exhaustive small-scope differential runs; _handle_string additionally by the table), CPython re/str '
          '(a regex that is an alternation of single characters substitutes per character; str.replace is leftmost non-overlapping). '
          'The Cython twins (_tokenizer.pyx) cannot be built here and are not covered. Embedding in VMF/BSP/DMX files is '
          'covered only through the compositional theorem (any rest of input) and Tokenizer/Keyvalues.parse-level search.',
@@ -151,8 +158,20 @@ def shrink(s: str, pred) -> str:
     return cur
 
 
+CAP = 3
+_REPORTED: dict[str, int] = {}
+
+
 def report(ck: Ck, s: str, ml: bool, why: str, ctx: dict | None = None) -> None:
     ctx = ctx or {}
+    # at most CAP shrunk replays per class of failure (kind of failure x mode x how it was embedded): a fault that breaks
+    # thousands of random strings must not produce thousands of replays (each one is shrunk, which costs oracle runs)
+    cls0 = (why.split(' ')[0] if why.startswith(('raw-', 'linebreak', 'dangling')) else 'roundtrip') + ('-multi' if ml else '-single') \
+        + ('-kvparse' if ctx.get('kv') else '-embedded' if ctx else '')
+    _REPORTED[cls0] = _REPORTED.get(cls0, 0) + 1
+    if _REPORTED[cls0] > CAP:
+        ck.count('search_failures_beyond_cap')
+        return
     kw = {k: ctx[k] for k in ('pre', 'post', 'cut', 'bits') if k in ctx}
     if ctx.get('kv'):
         small = shrink(s, lambda t: kv_oracle(t, ml) is not None)
@@ -250,19 +269,23 @@ def model_counterexamples(ck: Ck) -> None:
     strings over the escape alphabet up to length 3 that do not round-trip.  A witness found by the model is then
     run against the implementation; if it fails there too it is reported as a concrete violation."""
     alpha = U.coq_chars(ord(c) for c in ESC_ALPHA)
-    vals = ck.coq_eval(U.IMPORTS, [f'roundtrip_counterexamples false {alpha} 3', f'roundtrip_counterexamples true {alpha} 3'],
+    runs = '[5; 17; 33; 65; 129; 257]%nat'       # runs of one character: a substitution limited to its first matches fails only there
+    vals = ck.coq_eval(U.IMPORTS, [f'roundtrip_counterexamples false {alpha} 3', f'roundtrip_counterexamples true {alpha} 3',
+                                   f'roundtrip_counterexamples_runs false {alpha} {runs}', f'roundtrip_counterexamples_runs true {alpha} {runs}'],
                        name='modelcex', preamble=U.PRE)
-    n = 2 * sum(len(ESC_ALPHA) ** k for k in range(4))
+    n = 2 * sum(len(ESC_ALPHA) ** k for k in range(4)) + 2 * 6 * len(ESC_ALPHA)
     ck.count('model_roundtrip_small_scope', n)
     if vals is None:
         ck.obligation('instance:escape_text_model_roundtrips_small_scope', False, 'model could not be evaluated')
         ck.tie_broken.append('in-kernel round-trip enumeration could not be evaluated')
         return
-    wit = [(ml, ''.join(map(chr, w))) for ml, v in zip((False, True), vals) for w in parse_coq_nested(v)]
+    wit = [(ml, ''.join(map(chr, w))) for ml, v in zip((False, True), vals[:2]) for w in parse_coq_nested(v)]
+    wit += [(ml, chr(c) * m) for ml, v in zip((False, True), vals[2:]) for c, m in parse_coq_nested(v)]
     ck.obligation('instance:escape_text_model_roundtrips_small_scope', not wit,
                   f'in-kernel enumeration (escape_text pipeline as translated from the source + tokenizer model) of all {n} strings over the '
-                  f'escape alphabet up to length 3 x 2 modes: ' + ('every one tokenizes back to itself' if not wit else
-                  f'{len(wit)} counterexamples, shortest: multiline={wit[0][0]} s={wit[0][1]!r}'))
+                  f'escape alphabet up to length 3 and every run of one of these characters of length 5, 17, 33, 65, 129, 257, x 2 modes: '
+                  + ('every one tokenizes back to itself' if not wit else
+                     f'{len(wit)} counterexamples, shortest: multiline={wit[0][0]} s={wit[0][1][:40]!r}' + (f' (length {len(wit[0][1])})' if len(wit[0][1]) > 40 else '')))
     if wit:
         ck.tie_broken.append('the model of escape_text read from the source does not round-trip')
         ck.extra['model_counterexamples'] = [{'multiline': ml, 's': s} for ml, s in wit[:10]]
@@ -270,6 +293,53 @@ def model_counterexamples(ck: Ck) -> None:
             r = oracle(s, ml)
             if r is not None:
                 report(ck, s, ml, r)
+
+
+HS_IMPORTS = U.IMPORTS + ['SV.Text.HsTable', 'SV.Text.HsGen']
+_HS_CLASS = ['DQ', 'CR', 'LF', 'backslash', 'end-of-input', 'other']
+_HS_SECOND = ['-', 'end-of-input', 'LF', 'key-of-ESCAPES', 'other']
+
+
+def translate_hstring(ck: Ck) -> bool:
+    """Gen/HsRows_gen.v: the decision table of Tokenizer._handle_string. When the translator fails closed an EMPTY table is
+    written, so that everything else still builds and is evaluated (the hand model's correspondences in particular)."""
+    ok = ck.translate('HsRows_gen', c02_hstring.translate)
+    if not ok:
+        ck.gen('HsRows_gen', c02_hstring.EMPTY_GEN, {'failed_closed': True})
+    return ok
+
+
+def handle_string_table(ck: Ck, translated: bool) -> None:
+    """Instance obligations about the table read from _handle_string; when the rows differ from the model's, the differing rows
+    and (small scope, inside Coq) texts on which the code's table and the hand model differ are reported, and each such text
+    is run on the implementation."""
+    if not translated:
+        return          # translate:HsRows_gen is already a failed obligation; the empty table carries no information
+    res = ck.instance_obligations(HS_IMPORTS, {
+        'handle_string_rows_are_the_model': 'handle_string_rows_are_the_model',
+        'handle_string_flag_starts_false': 'handle_string_flag_starts_false',
+    }, name='hsinst')
+    ck.count('handle_string_table_rows', ck.extra.get('translated', {}).get('HsRows_gen', {}).get('rows', 0))
+    if all(res.values()):
+        return
+    ck.tie_broken.append('the decision table read from Tokenizer._handle_string is not the table of the model Text/Tokenizer.v handle_string')
+    alpha = U.coq_chars(ord(c) for c in ESC_ALPHA)
+    vals = ck.coq_eval(HS_IMPORTS, ['handle_string_rows_diff', f'hs_table_witnesses {alpha} 3'], name='hsdiff', preamble=U.PRE)
+    if vals is None:
+        return
+    rows = []
+    for k, fl, ae, e, got, want in parse_coq_nested(vals[0]):      # Coq prints left-nested pairs flat
+        rows.append({'char': _HS_CLASS[k], 'last_was_cr': bool(fl), 'allow_escapes': bool(ae), 'second': _HS_SECOND[e],
+                     'source (reads second, line increments, new flag, appends, end)': got, 'model': want})
+    wit = []
+    for bits, w, a, b in parse_coq_nested(vals[1])[:5]:
+        text = '"' + ''.join(map(chr, w))
+        impl = U.impl_results(text, bits, 1)
+        wit.append({'text': text, 'option_bits': bits, 'table_of_the_source': U.decode_results(list(a)[:-1]), 'hand_model': U.decode_results(list(b)[:-1]),
+                    'implementation': U.decode_results(impl), 'implementation_follows_the_table': impl == list(a)[:-1]})
+    ck.extra['handle_string_table'] = {'differing_rows': rows[:12], 'witness_texts': wit}
+    ck.notes.append(f'_handle_string: {len(rows)} rows differ from the model, first: {rows[0] if rows else None}; '
+                    f'first text on which the table and the model differ: {wit[0] if wit else "none up to length 3"}')
 
 
 def corr_codepoints(ck: Ck) -> None:
@@ -427,24 +497,27 @@ def _locate(ck: Ck, sh, alpha) -> str:
 
 # ------------------------------------------------------------------------------------------------ main
 def run(ck: Ck) -> None:
+    _REPORTED.clear()
     ck.rule = ('exhaustive: every string over the 14-character escape alphabet (backslash, quote, apostrophe, CR, LF, TAB, VT, BS, '
                'FF, BEL, ?, /, n, x) up to length 4 (5 thorough) in both modes, non-trivial = length >= 2; every code point '
                '0..0x10FFFF, non-trivial = escape_text changes it; random strings (escape alphabet / ASCII / surrogates / BMP / '
                'astral) of length 1..200 embedded in ten token contexts, cut into chunks at a random position, under other '
                'option vectors, through Keyvalues.parse, non-trivial = contains a character of the escape alphabet; distinct by '
                'full input')
-    ck.trusted.append('hand-written model Text/Tokenizer.v (handle_string/get_token) and Text/Escape.v (tied by exhaustive small-scope and per-code-point differential runs on every run)')
+    ck.trusted.append('hand-written model Text/Tokenizer.v (handle_string/get_token) and Text/Escape.v (tied by exhaustive small-scope and per-code-point differential runs on every run; handle_string also by the decision table read from the source)')
+    ck.trusted.append('translate/c02_hstring.py: abstract execution of the loop body of Tokenizer._handle_string (fail-closed outside its statement language)')
     ck.trusted.append('harness/c02_util.py checksum mirror of Text/TokEnum.v (63-bit; a collision would hide a disagreement)')
     ck.assumptions.append('Python str = list of code points; re.sub over an alternation of single characters acts per character (exercised by the string correspondence)')
     ck.assumptions.append('pure-Python tokenizer only; the Cython twin _tokenizer.pyx cannot be built in this sandbox')
     ok_t = ck.translate('EscTables_gen', c02_tables.translate)
+    ok_h = translate_hstring(ck)
     side = ck.extra.get('translated', {}).get('EscTables_gen', {})
     escalate = bool(side) and any(side.get('digests', {}).get(k) != v for k, v in c02_tables.MODEL_DIGESTS.items())
     if escalate:
         ck.notes.append('hand-modelled tokenizer functions changed since the model was written: correspondence budgets escalated')
-    built = ok_t and ck.build(['Props/C02.vo', 'Text/TokEnum.vo'])
+    built = ok_t and ck.build(['Props/C02.vo', 'Text/TokEnum.vo', 'Text/HsGen.vo'])
     if built:
-        ck.theorems('Props/C02.v')
+        th = U.theorems_in_background(ck, 'Props/C02.v')
         ck.instance_obligations(U.IMPORTS, {
             'every_escape_decodes_back_and_no_symbol_is_LF': 'tbl_roundtrip gen_tables',
             'dquote_always_escaped_single': 'tbl_dq gen_tables false',
@@ -463,10 +536,12 @@ def run(ck: Ck) -> None:
             'token_enum_values_distinct': 'token_values_distinct',
             'operators_name_known_tokens': 'operators_all_known',
         })
+        handle_string_table(ck, ok_h)
         model_counterexamples(ck)
         corr_codepoints(ck)
         corr_escape_strings(ck, escalate)
         corr_quoted(ck, escalate)
+        U.join_theorems(ck, th)
     search(ck, escalate)
     if ck.violations:
         # concrete failing inputs explain broken table obligations / correspondences of the same run
